@@ -454,7 +454,7 @@ def register_updaters():
         serializer_registry.register('verif_ser_tag', SerTag())
 
 
-def build(case, perm=None):
+def build(case, perm=None, parallel=()):
     from dst.parties import WProc
     processes, topology = {}, {}
     procs = list(case['procs'])
@@ -464,6 +464,8 @@ def build(case, perm=None):
         params = {'spec': spec, 'name': spec['name']}
         if perm is not None:
             params['perm'] = derive(perm, spec['name'])
+        if spec['name'] in parallel:
+            params['_parallel'] = True
         proc = WProc(params)
         harness.assoc(processes, spec['path'], proc)
         harness.assoc(topology, spec['path'], topo_of(spec))
@@ -477,15 +479,15 @@ def budget_for(case, units):
     return 12000 * (units + 20) * n
 
 
-def execute(case, perm=None):
+def execute(case, perm=None, parallel=(), sim_seed=None, tail_ops=()):
     from dst.parties import decode_value
     opts = case['opts']
     unit = opts['unit']
     run = harness.Run()
-    harness.begin_run(0.0, seed=case.get('seed', 0))
+    harness.begin_run(0.0, seed=case.get('seed', 0), simmp_seed=sim_seed)
     register_updaters()
     try:
-        processes, topology = build(case, perm)
+        processes, topology = build(case, perm, parallel)
         init = decode_value(copy.deepcopy(case.get('init') or {}))
         if perm is not None:
             init = kernel.permute_dict(init, Rng(perm))
@@ -523,6 +525,15 @@ def execute(case, perm=None):
         if eng is not None:
             harness.drive(run, eng, case['ops'], unit,
                           lambda op: budget_for(case, op[1] if len(op) > 1 else 1))
+            if run.exc is None:
+                run.extra['final_state'] = REC.snapshot()
+            if run.exc is None and tail_ops:
+                harness.drive(run, eng, [list(o) for o in tail_ops], unit, lambda op: 2000000,
+                              first_index=len(case['ops']))
+                if run.extra.get('drop'):
+                    eng = None
+                    processes = None
+                    harness.drop_engine(run)
     finally:
         harness.end_run()
     return harness.finish(run)
